@@ -26,6 +26,10 @@ from .values import PList, SArr, Sym, fresh, fresh_name, to_z3, zint
 I, B = z3.IntSort(), z3.BoolSort()
 
 
+def _TRUE(E, v, x, val, ctx):
+    return True
+
+
 class Rule:
     """J(E, vars, ENT, LEFT, ctx) -> z3 Bool;  Qe/Ql(E, vars, x, val, ctx) -> z3 Bool / bool;  `modifies`: expressions (in the
     caller's frame) of the state the callbacks may change;  enter_kind / leave_kind: kind of the callback results
@@ -35,7 +39,7 @@ class Rule:
                  ghost_enter=None, ghost_leave=None):
         # ghost_enter / ghost_leave(E, vars, x, ctx): ghost code run right after the real callback (may update ghost objects listed in `modifies` only)
         self.ghost_enter, self.ghost_leave = ghost_enter, ghost_leave
-        self.J, self.Qe, self.Ql = J, Qe or (lambda E, v, x, val, ctx: True), Ql or (lambda E, v, x, val, ctx: True)
+        self.J, self.Qe, self.Ql = J, Qe or _TRUE, Ql or _TRUE
         self.modifies = list(modifies)
         self.enter_kind, self.leave_kind = enter_kind, leave_kind
         self.depth = depth
@@ -102,7 +106,8 @@ def apply(eng, rule: Rule, fr, topology, enter, leave, root):
     eng.assume(z3.ForAll([x, k, k2], z3.Implies(z3.And(0 <= k, k < k2, k2 < nkids(x)), kid(x, k) < kid(x, k2))))
     eng.assume(z3.ForAll([c], z3.Implies(z3.And(R(c), sel(P, c) >= 0), z3.And(0 <= rank(c), rank(c) < nkids(sel(P, c)), kid(sel(P, c), rank(c)) == c))))
     eng.assumptions.add("ghost definitions per traverse call: Sub (subtree of the start node), nkids / kid / rank (children in table order)")
-    eng.assumptions.add("derived rule: traverse client rule (consequence of the proved contract of _traverse_dfs, argued in DESIGN.md)")
+    eng.assumptions.add("assumed-lemma:traverse client rule: schema proved in Lean (lean/TraverseRule.lean: traverse_rule_sound) from the event-sequence "
+                        "reading of the contract of _traverse_dfs proved in contracts/C04.py; the obligations emitted here instantiate its premises by inspection")
     ctx = Ctx(P, n, rz, Sub, nkids, kid, rank)
     eng.ghost["last-traverse-Sub"] = Sub  # so that the caller's postconditions can speak about the subtree of this call
 
@@ -144,6 +149,27 @@ def apply(eng, rule: Rule, fr, topology, enter, leave, root):
         havoc()
         body()
         del eng.pc[mark:]
+
+    # ---- the value predicates must not read state that the callbacks may change (lean/TraverseRule.lean takes Qe / Ql as
+    #      predicates of (node, value) only): evaluated before and after a havoc they must be the same formula
+    def independent(which, fn, kind):
+        if fn is _TRUE or callable(kind):
+            return
+
+        def body():
+            xs, val = fresh("int", "node"), _mk_value(eng, kind, "val")
+            q1 = _zb(fn(eng, vars_now(), xs.z, val, ctx))
+            havoc()
+            q2 = _zb(fn(eng, vars_now(), xs.z, val, ctx))
+            if not z3.eq(z3.simplify(q1), z3.simplify(q2)):
+                eng.prove(f"{lab}/rule/{which}-does-not-depend-on-state-the-callbacks-change", q1 == q2, "annotation")
+
+        phase(body)
+
+    if enter is not None:
+        independent("enter-value-predicate", rule.Qe, rule.enter_kind)
+    if leave is not None:
+        independent("leave-value-predicate", rule.Ql, rule.leave_kind)
 
     # ---- enter step
     if enter is not None:
